@@ -111,6 +111,16 @@ func (e *Engine) builtin(s *State, f *Frame, b *ssa.Builtin, cc *ssa.CallCommon,
 				set(CI(0))
 			} else if o := s.heap[v.Obj]; o.Kind == kMap {
 				e.access(s, v.Obj, false, site)
+				if e.havocLookup[v.Obj] {
+					// unknown content (C19 layer 3): empty or not, recorded as an event whose consistency with the
+					// tracked keys the schedule query decides
+					o2 := s.clone()
+					o2.trace = append(o2.trace, TraceEv{Kind: "lenzero", Obj: v.Obj, Res: true, Site: site})
+					setRes(o2, x, CI(0))
+					s.trace = append(s.trace, TraceEv{Kind: "lenzero", Obj: v.Obj, Res: false, Site: site})
+					set(e.boundedVar(s, "maplen", 1, 1<<20))
+					return []*State{o2}
+				}
 				set(CI(int64(len(o.M))))
 			} else if o.Kind == kElems {
 				set(CI(int64(len(o.E))))
@@ -1436,42 +1446,64 @@ func (e *Engine) crcLookup(s *State, d *Bytes) *Term {
 // ---------------------------------------------------------------- merge at return
 
 func (e *Engine) callMerged(s *State, f *Frame, fn *ssa.Function, args []Value, bind []Value, x *ssa.Call) []*State {
-	sub := s.clone()
-	sub.frames = nil
-	e.pushCallBind(sub, fn, args, bind, nil)
+	// The callee runs on s itself with the caller's frames set aside (cloning the whole state per call is
+	// quadratic in loops over long lists); the caller's frames are re-attached to every resulting state.
+	saved := s.frames
+	savedCutNext, savedCutDone := s.cutNext, s.cutDone
+	s.frames, s.cutNext, s.cutDone = nil, nil, false
+	e.pushCallBind(s, fn, args, bind, nil)
 	base := len(s.pc)
+	basePC := append([]*Term{}, s.pc...)
 	nAlloc := len(s.allocs)
 	e.lazy++
-	finals := e.Run(sub)
+	finals := e.Run(s)
 	e.lazy--
 	e.Paths -= len(finals)
-	graft := func(dst *State, fin *State) {
-		dst.heap, dst.pc, dst.steps, dst.allocs = fin.heap, fin.pc, fin.steps, fin.allocs
-		dst.acc, dst.locks, dst.lockEvs, dst.imprec, dst.notes, dst.trace = fin.acc, fin.locks, fin.lockEvs, fin.imprec, fin.notes, fin.trace
-		setRes(dst, x, fin.ret)
-		if fin.panicd != "" {
-			dst.panicd = fin.panicd
-		}
-		if fin.cut != "" {
-			dst.cut = fin.cut
-		}
-	}
 	if len(finals) == 0 {
+		s.frames, s.cutNext, s.cutDone = saved, savedCutNext, savedCutDone
 		s.dead = true
 		return nil
 	}
-	groups := e.mergeFinals(s.pc[:base], nAlloc, finals)
-	var forks []*State
+	groups := e.mergeFinals(basePC[:base], nAlloc, finals)
+	// snapshot the results first: s may itself be one of them
+	snaps := make([]State, len(groups))
 	for i, g := range groups {
-		if i == 0 {
-			continue
-		}
-		o := s.clone()
-		graft(o, g)
+		snaps[i] = *g
+	}
+	attach := func(dst *State, fin *State, frames []*Frame) {
+		dst.heap, dst.pc, dst.steps, dst.allocs = fin.heap, fin.pc, fin.steps, fin.allocs
+		dst.acc, dst.locks, dst.lockEvs, dst.imprec, dst.notes, dst.trace = fin.acc, fin.locks, fin.lockEvs, fin.imprec, fin.notes, fin.trace
+		dst.ret, dst.dead, dst.cutDone, dst.cutNext = nil, false, savedCutDone, savedCutNext
+		dst.panicd, dst.cut = fin.panicd, fin.cut
+		dst.frames = frames
+		setRes(dst, x, fin.ret)
+	}
+	var forks []*State
+	for i := 1; i < len(groups); i++ {
+		o := &State{}
+		attach(o, &snaps[i], cloneFrames(saved))
 		forks = append(forks, o)
 	}
-	graft(s, groups[0])
+	attach(s, &snaps[0], saved)
 	return forks
+}
+
+func cloneFrames(fs []*Frame) []*Frame {
+	var out []*Frame
+	for _, f := range fs {
+		c := *f
+		c.locals = make(map[ssa.Value]Value, len(f.locals))
+		for k, v := range f.locals {
+			c.locals[k] = v
+		}
+		c.visits = map[int]int{}
+		for k, v := range f.visits {
+			c.visits[k] = v
+		}
+		c.defers = append([]deferred{}, f.defers...)
+		out = append(out, &c)
+	}
+	return out
 }
 
 // mergeFinals merges the final states of a sub-exploration that agree on pointers and object identities:
